@@ -152,10 +152,6 @@ def rule_matrix_builders(ctx: Ctx):
             ctx.undecided("R-C04-5", init, call, "matrix argument is not a local array")
             continue
         mat = mat_e.id
-        mdef = assigned_value(init.node, mat)
-        zero_init = len(mdef) == 1 and isinstance(mdef[0], ast.Call) and norm(mdef[0].func) in ("np.zeros", "numpy.zeros")
-        ctx.check(zero_init, "R-C04-3", init, mdef[0] if mdef else None, "matrix starts as zeros (diagonal stays 0 unless written)",
-                  key=f"zeros:{init.cls.name}")
         # index-space tags of loop variables
         tags: Dict[str, str] = {}
         perms: Dict[str, str] = {}
@@ -225,8 +221,12 @@ def rule_matrix_builders(ctx: Ctx):
                   and isinstance(n.targets[0].value, ast.Name) and n.targets[0].value.id == mat
                   and isinstance(n.targets[0].slice, ast.Tuple) and len(n.targets[0].slice.elts) == 2]
         if not stores:
-            ctx.undecided("R-C04-3", init, None, "no matrix[i, j] store found")
+            _vectorised_builder(ctx, init, call, labels, mat, cats_name)
             continue
+        mdef = assigned_value(init.node, mat)
+        zero_init = len(mdef) == 1 and isinstance(mdef[0], ast.Call) and norm(mdef[0].func) in ("np.zeros", "numpy.zeros")
+        ctx.check(zero_init, "R-C04-3", init, mdef[0] if mdef else None, "matrix starts as zeros (diagonal stays 0 unless written)",
+                  key=f"zeros:{init.cls.name}")
         cells = {(norm(s.targets[0].slice.elts[0]), norm(s.targets[0].slice.elts[1])): s for s in stores}
         sym_ok = True
         why = ""
@@ -264,6 +264,166 @@ def rule_matrix_builders(ctx: Ctx):
                   bad_detail=f"matrix of {init.cls.name} may be asymmetric or non-zero on the diagonal: {why}",
                   key=f"matrix-sym:{init.cls.name}")
     ctx.require(n_builders >= 2, "R-C04-5", f"{n_builders} matrix-building constructors found (expected Lambda and Ordinal)")
+
+
+class _Perm:
+    """permutation array: position space `dom` -> value space `val`"""
+
+    def __init__(self, dom, val):
+        self.dom, self.val = dom, val
+
+
+def _vectorised_builder(ctx: Ctx, init: FuncInfo, call: ast.Call, labels: str, mat: str, cats_name):
+    """index-space inference on array axes for constructors that build the matrix with numpy fancy indexing.
+    Spaces: SUPPLIED (order of the caller's labels / positions), SORTED (alphabetical rank), ANY (fresh zeros), B (broadcast axis)."""
+    env: Dict[str, object] = {}
+    for prm in init.params[1:]:
+        if prm != "delta_empty":
+            env[prm] = ("SUPPLIED",)
+    problems: List[Tuple[ast.AST, str]] = []
+    symmetric: Dict[str, bool] = {}
+
+    def ix_args(e):
+        if isinstance(e, ast.Call) and norm(e.func) in ("np.ix_", "numpy.ix_") and len(e.args) == 2:
+            return e.args
+        if isinstance(e, ast.Tuple) and len(e.elts) == 2 and all(isinstance(x, ast.Subscript) for x in e.elts):
+            a, b = e.elts      # P[:, None], P[None, :]
+            if norm(a.slice) == "(slice(None, None, None), None)" or norm(a) .endswith("[:, None]"):
+                return [a.value, b.value]
+        return None
+
+    def axes(e: ast.AST):
+        if isinstance(e, ast.Name):
+            return env.get(e.id)
+        if isinstance(e, ast.Call):
+            fn = norm(e.func)
+            if fn in ("np.asarray", "np.array", "numpy.array", "numpy.asarray", "np.abs", "np.absolute", "abs", "np.float32", "list") and e.args:
+                return axes(e.args[0])
+            if fn in ("np.arange", "numpy.arange") and e.args and isinstance(e.args[0], ast.Call) and dotted(e.args[0].func) == "len":
+                return axes(e.args[0].args[0]) if axes(e.args[0].args[0]) else ("SUPPLIED",)
+            if fn in ("np.argsort", "numpy.argsort") and e.args:
+                a = axes(e.args[0])
+                if isinstance(a, _Perm):
+                    return _Perm(a.val, a.dom)          # argsort of a permutation is its inverse
+                if a == ("SUPPLIED",):
+                    return _Perm("SORTED", "SUPPLIED")   # r-th entry = supplied position of the r-th label in sorted order
+                return None
+            if fn in ("np.zeros", "numpy.zeros", "np.empty"):
+                return ("ANY", "ANY")
+            if fn in ("np.subtract.outer",) and len(e.args) == 2:
+                a, b = axes(e.args[0]), axes(e.args[1])
+                if a and b and len(a) == 1 and len(b) == 1:
+                    return (a[0], b[0])
+            return None
+        if isinstance(e, ast.BinOp):
+            a, b = axes(e.left), axes(e.right)
+            if a is None or b is None or isinstance(a, _Perm) or isinstance(b, _Perm):
+                return a if b is None else b if a is None else None
+            if len(a) == len(b):
+                out = []
+                for x, y in zip(a, b):
+                    if x == "B":
+                        out.append(y)
+                    elif y == "B" or x == y:
+                        out.append(x)
+                    else:
+                        problems.append((e, f"operands of `{norm(e)}` are indexed in different spaces ({x} vs {y})"))
+                        out.append(x)
+                return tuple(out)
+            return a if len(a) > len(b) else b
+        if isinstance(e, ast.Subscript):
+            t = norm(e.slice)
+            base = axes(e.value)
+            if isinstance(e.slice, ast.Tuple) and len(e.slice.elts) == 2 and isinstance(base, tuple) and len(base) == 1:
+                parts = [norm(x) for x in e.slice.elts]
+                if parts == [":", "None"] or (isinstance(e.slice.elts[0], ast.Slice) and isinstance(e.slice.elts[1], ast.Constant) and e.slice.elts[1].value is None):
+                    return (base[0], "B")
+                if isinstance(e.slice.elts[1], ast.Slice) and isinstance(e.slice.elts[0], ast.Constant) and e.slice.elts[0].value is None:
+                    return ("B", base[0])
+            ia = ix_args(e.slice)
+            if ia is not None and isinstance(base, tuple) and len(base) == 2:
+                P, Q = axes(ia[0]), axes(ia[1])
+                if isinstance(P, _Perm) and isinstance(Q, _Perm):
+                    for ax, perm in zip(base, (P, Q)):
+                        if ax not in ("ANY", perm.val):
+                            problems.append((e, f"gather `{norm(e)}`: the array is indexed by {ax} positions but the index array holds {perm.val} positions"))
+                    return (P.dom, Q.dom)
+            if isinstance(base, tuple) and isinstance(axes(e.slice), _Perm) and len(base) >= 1:
+                P = axes(e.slice)
+                if base[0] not in ("ANY", P.val):
+                    problems.append((e, f"gather `{norm(e)}`: axis 0 is indexed by {base[0]} positions but the index array holds {P.val} positions"))
+                return (P.dom,) + tuple(base[1:])
+            if isinstance(e.slice, ast.Tuple) and len(e.slice.elts) == 2 and isinstance(e.slice.elts[0], ast.Slice) and isinstance(base, tuple) and len(base) == 2 \
+                    and isinstance(axes(e.slice.elts[1]), _Perm):
+                P = axes(e.slice.elts[1])
+                if base[1] not in ("ANY", P.val):
+                    problems.append((e, f"gather `{norm(e)}`: axis 1 is indexed by {base[1]} positions but the index array holds {P.val} positions"))
+                return (base[0], P.dom)
+            return None
+        return None
+
+    def outer_abs_difference(e: ast.AST) -> bool:
+        """np.abs(X[:, None] - X[None, :]) for one 1-D array X: symmetric with a zero diagonal"""
+        if isinstance(e, ast.Name):
+            d = assigned_value(init.node, e.id)
+            return len(d) == 1 and outer_abs_difference(d[0])
+        if isinstance(e, ast.Subscript):
+            return outer_abs_difference(e.value)        # a symmetric re-indexing of both axes keeps symmetry
+        if isinstance(e, ast.Call) and norm(e.func) in ("np.abs", "np.absolute", "abs") and e.args and isinstance(e.args[0], ast.BinOp) \
+                and isinstance(e.args[0].op, ast.Sub):
+            l, r = e.args[0].left, e.args[0].right
+            if isinstance(l, ast.Subscript) and isinstance(r, ast.Subscript) and norm(l.value) == norm(r.value):
+                return {norm(l.slice), norm(r.slice)} == {"(slice(None, None, None), None)", "(None, slice(None, None, None))"} or \
+                    {norm(l)[len(norm(l.value)):], norm(r)[len(norm(r.value)):]} == {"[:, None]", "[None, :]"}
+        if isinstance(e, ast.Call) and norm(e.func) == "np.abs" and e.args and isinstance(e.args[0], ast.Call) and norm(e.args[0].func) == "np.subtract.outer":
+            return norm(e.args[0].args[0]) == norm(e.args[0].args[1])
+        return False
+
+    value_expr = None
+    for st in body_of(init):
+        if isinstance(st, ast.Assign) and len(st.targets) == 1:
+            tg = st.targets[0]
+            if isinstance(tg, ast.Name):
+                a = axes(st.value)
+                if a is not None:
+                    env[tg.id] = a
+                rescale = isinstance(st.value, ast.BinOp) and isinstance(st.value.op, (ast.Div, ast.Mult)) and norm(st.value.left) == mat
+                if tg.id == mat and not rescale and not (isinstance(st.value, ast.Call) and norm(st.value.func) in ("np.zeros", "np.empty")):
+                    value_expr = st.value
+            elif isinstance(tg, ast.Subscript) and isinstance(tg.value, ast.Name) and tg.value.id == mat:
+                ia = ix_args(tg.slice)
+                if ia is None:
+                    ctx.undecided("R-C04-5", init, st, "store into the matrix with an index form that is not understood")
+                    return
+                P, Q = axes(ia[0]), axes(ia[1])
+                B = axes(st.value)
+                value_expr = st.value
+                if not (isinstance(P, _Perm) and isinstance(Q, _Perm) and isinstance(B, tuple) and len(B) == 2):
+                    ctx.undecided("R-C04-5", init, st, "cannot infer the index spaces of a scattered store")
+                    return
+                for k, (ax, perm) in enumerate(zip(B, (P, Q))):
+                    if ax != perm.dom:
+                        problems.append((st, f"scatter `{norm(st)[:90]}`: cell (a, b) of the right-hand side, indexed by {ax} positions, is written to row/column "
+                                             f"index_array[a] although index_array is itself indexed by {perm.dom} rank: the inverse permutation is applied "
+                                             f"(right only when the label order is an involution, e.g. already sorted or reversed)"))
+                env[mat] = (P.val, Q.val)
+    final = env.get(mat)
+    if problems:
+        for node, why in problems:
+            ctx.bad("R-C04-5", init, node, why, key=f"vector-space:{norm(node)[:50]}")
+    elif final in (("SORTED", "SORTED"),):
+        ctx.ok("R-C04-5", init, call, "matrix axes are in sorted-rank space; label/position arrays are only indexed in supplied space", key=f"space:{init.cls.name}")
+    else:
+        ctx.bad("R-C04-5", init, call, f"the matrix handed over with SortedSet(labels) has axes in {final} space; alphabetical rank space is required "
+                f"(its rows/columns are looked up by the index of a label in the sorted category set)", key=f"space:{init.cls.name}")
+    if value_expr is not None and outer_abs_difference(value_expr):
+        ctx.ok("R-C04-3", init, value_expr, "matrix values are |x_a - x_b| of one array: symmetric with a zero diagonal", key=f"matrix-sym:{init.cls.name}")
+    else:
+        ctx.undecided("R-C04-3", init, value_expr, "cannot decide symmetry / zero diagonal of the vectorised matrix expression", key=f"matrix-sym:{init.cls.name}")
+
+
+def body_of(f: FuncInfo):
+    return [s for s in f.node.body if not (isinstance(s, ast.Expr) and isinstance(s.value, ast.Constant))]
 
 
 # ---------------------------------------------------------------------------------------------
